@@ -4,6 +4,7 @@ import (
 	"encoding/gob"
 	"go/ast"
 	"go/token"
+	"sort"
 	"sync"
 )
 
@@ -83,7 +84,12 @@ func prepareFile(file *ast.File) *ast.File {
 
 	// Clear fields that can be easily reconstructed.
 	file.Imports = nil
-	file.Comments = nil
+
+	// The comment groups attached to a node (Doc, Comment fields) are serialized
+	// with that node and collected again by unpackFile. Keep only the free-floating
+	// ones, which are referenced by nothing but this list, e.g. a //go:linkname
+	// directive separated from its declaration by a blank line.
+	file.Comments = floatingComments(file)
 
 	// Clear fields that are deprecated.
 	file.Scope = nil
@@ -100,6 +106,25 @@ func prepareFile(file *ast.File) *ast.File {
 	return file
 }
 
+// floatingComments returns the comment groups of the file that are not
+// attached to any node, in source order.
+func floatingComments(file *ast.File) []*ast.CommentGroup {
+	attached := make(map[*ast.CommentGroup]bool)
+	ast.Inspect(file, func(n ast.Node) bool {
+		if cg, ok := n.(*ast.CommentGroup); ok {
+			attached[cg] = true
+		}
+		return true
+	})
+	var floating []*ast.CommentGroup
+	for _, cg := range file.Comments {
+		if !attached[cg] {
+			floating = append(floating, cg)
+		}
+	}
+	return floating
+}
+
 // unpackFile is run when deserializing a source to reconstruct the
 // Imports and Comments fields that were cleared when serializing the file.
 func unpackFile(file *ast.File) {
@@ -113,6 +138,12 @@ func unpackFile(file *ast.File) {
 			comments = append(comments, cg)
 		}
 		return true
+	})
+	// file.Comments holds the free-floating groups at this point, merge them
+	// with the attached ones back into source order.
+	comments = append(comments, file.Comments...)
+	sort.SliceStable(comments, func(i, j int) bool {
+		return comments[i].Pos() < comments[j].Pos()
 	})
 	file.Imports = imports
 	file.Comments = comments
